@@ -126,7 +126,11 @@ def _convert_1d_array_bool(
 def _convert_2d_array(array: ArrayLike | None) -> NDArray[np.float64] | None:
     if array is None:
         return array
-    return immutable_array(array, dtype=np.float64, ndmin=2)
+    result = np.array(array, dtype=np.float64, ndmin=2)
+    if result.shape == (1, 0):
+        # An empty sequence is a matrix without rows, not a row without columns:
+        result = result.reshape(0, 0)
+    return immutable_array(result)
 
 
 def _convert_enum_array(array: ArrayLike | None) -> NDArray[np.ubyte] | None:
